@@ -352,6 +352,7 @@ pub fn run(tier: Tier) -> i32 {
         }
     }
     rep.set("rule", json!("Enumerated completely in both tiers: shape in {rect, circle, ellipse, line} x per-axis constraint pair (6 of {start, end, centre, length}) for x and for y x 4 boxes (negative/fractional origin, unequal sides; squares for circle) x every spelling: alternative attribute names (x/x1, width/rx, r), both attribute orders, shorthand xy/xy1/xy2/cxy/wh/rxy with separators {space, comma, comma-space, two spaces} and single-value form where both values coincide, two shorthands at once. Oracle: the output element carries exactly its native geometry for the box (3-decimal tolerance), no shorthand or foreign geometry attribute, and all spellings of one case give identical attributes. Second leg: dx/dy vs dxy and dw/dh vs dwh (absolute, percent, one value, two values, separators) against the expected moved/resized box. Non-trivial = all spellings accepted and equal."));
+    rep.set("also_later", json!("Rounds 4-5 added pairs: a circle given one length and a position on the other axis, dw / dh on circles / ellipses sized in the other spelling, relative radii in the other spelling, two references separated by a comma, defaults of another kind (open)."));
     rep.set("also", json!("Also 11 equivalence pairs: rxy on rect / circle / ellipse against rx + ry (and r), dx / dy / dxy on shapes whose position is defaulted, dwh on a rect whose extent is given by start + end or centre + length."));
     let st = run_space(bases.len(), |i| check_base(bases[i].0, bases[i].1, bases[i].2, bases[i].3));
     let s = &bases[bases.len() / 3];
